@@ -27,6 +27,9 @@ def collect(res, wr):
     for f in wr.failures:
         res.violations.append(core.Violation(f["msg"], replay_text=f["replay_text"]))
     for c in wr.crashes:
+        if c["rc"] == "timeout":      # a plain timeout is never a violation (rule 5): e.g. a corrupted structure can make un-hooked code spin forever
+            res.inconclusive = "worker '%s' exceeded its time limit" % c.get("tag", "")
+            continue
         if c["rc"] == 4:
             res.inconclusive = "harness view of the hash-table internals does not match this tree"
             continue
@@ -37,6 +40,7 @@ def collect(res, wr):
 def run(tier, seed, res):
     b = _build()
     quick = tier == "quick"
+    tmo = 900 if quick else 4 * 3600
     res.rule = RULE
     res.assumptions = ["keys are unique at insertion (plain insert only by the key's owner thread when it knows the key is absent; shared keys "
                        "only through the locked find+insert idiom)",
@@ -46,22 +50,28 @@ def run(tier, seed, res):
     n = 16
     pb = 1 if quick else 3
     jobs = [dict(cmd=[b, "exh", str(i), str(n), str(pb)], env={"ASAN_OPTIONS": ASAN}, tag="exh") for i in range(n)]
-    wr = core.run_workers(PROP, jobs)
+    wr = core.run_workers(PROP, jobs, timeout=tmo)
     res.absorb(wr, "exhaustive")
     res.coverage["exhaustive"] = not (wr.failures or wr.crashes)
     res.coverage["exhaustive_subspace"] = ("all 512 programs (thread 0: 2 ops, thread 1: 1 op, 8 (op,key) pairs) on a table with 2 buckets, hint 1, constant "
                                            "hash, one resize done and the next one pending, x every schedule with at most %d preemption(s)" % pb)
     collect(res, wr)
+    if res.violations:
+        return
     per = 1200 if quick else 250000
     jobs = [dict(cmd=[b, "rc"], env={"ASAN_OPTIONS": ASAN, "RC_PARAMS": "seed=%d max_success=%d max_size=100" % (seed * 131 + i, per)}, tag="rc") for i in range(n)]
-    wr = core.run_workers(PROP, jobs)
+    wr = core.run_workers(PROP, jobs, timeout=tmo)
     res.absorb(wr, "rc")
     collect(res, wr)
+    if res.violations:
+        return
     mult = 1 if quick else 100
     jobs = [dict(cmd=[b, "stress", str(t), str(r * mult), str(seed * 17 + t)], env={"ASAN_OPTIONS": ASAN}, tag="stress") for t, r in ((2, 1500), (4, 800), (8, 400), (16, 300))]
-    wr = core.run_workers(PROP, jobs, max_parallel=1)
+    wr = core.run_workers(PROP, jobs, timeout=tmo, max_parallel=1)
     res.absorb(wr, "stress")
     collect(res, wr)
+    if res.violations:
+        return
 
 
 def replay(path):
